@@ -392,3 +392,16 @@ Proof. exact parse_print. Qed.
 Theorem C09_accepted_fields_have_a_parsable_attribute : forall W f,
   accept_field W f = true -> exists r, front f = Some r.
 Proof. exact accept_field_front. Qed.
+
+(** C13 per program: the builder step the model expects calls the real with_ methods in order, element by element *)
+Theorem C13_expected_step_performs_the_with_calls : forall d s vs,
+  with_names_distinct d -> In (bs_field s) (d_fields d) -> f_set (bs_field s) = true ->
+  List.length vs = N.to_nat (count (bs_field s)) ->
+  shape_hops d (xs_shape (expected_step s)) vs = Some (step_hops s vs).
+Proof. exact expected_step_semantics. Qed.
+
+(** C19: the compact rendering is the standard struct format *)
+Theorem C19_standard_struct_format : forall n f fs,
+  render_compact (DStruct n (f :: fs))
+  = (n ++ " { " ++ join ", " (map (fun av => fst av ++ ": " ++ render_compact (snd av)) (f :: fs)) ++ " }")%string.
+Proof. exact render_compact_struct. Qed.
